@@ -25,12 +25,15 @@ CLAIM = dict(
          "The no-STL build runs with leak detection off (utl::maybe<utl::vector> leaks are C19's subject).",
     ref="DESIGN.md 4/C06")
 
-IDX_TARGETS = ["c06_index", "c06_index_n", "c06_index_to"]
+IDX_TARGETS = ["c06_index", "c06_index_n", "c06_index_to", "c06_index_ct"]
 VIEW_TARGETS = ["c06_bto", "c06_bto_fixed", "c06_barr"]
 TARGETS_QUICK = [(n, "asan") for n in IDX_TARGETS + VIEW_TARGETS] + [("c06_index", "nostl"), ("c06_index_n", "nostl"), ("c06_index", "clang")]
 
 K_LIST, K_ARRAY, K_SVEC, K_NONE, K_ILIST = 0, 1, 3, 4, 5
-KN = {0: "list", 1: "array", 3: "svec", 4: "none", 5: "ilist"}
+K_SVEC2 = 7
+KN = {0: "list", 1: "array", 3: "svec", 4: "none", 5: "ilist", 7: "svec2"}
+MENU_CONST = {0: (2, 3), 1: (1, 3), 2: (3,), 3: (2, 1, 3)}
+MENU_KIND = {0: "const", 1: "const", 2: "const", 3: "const", 4: "clip-tuple", 5: "clip-array"}
 A_DYN, A_HYB, A_NUM = 0, 1, 2
 AN = {0: "dyn", 1: "hybrid", 2: "scalar"}
 
@@ -237,6 +240,22 @@ def gen_triples(ctx, quick, b):
         t = gen_tuple(rng, 4, 8 if hi else 4, 5 if hi else 4, pick_mode(rng))
         ks = rand_kinds_n(rng, t, 0)
         b.add("bs4 " + " ".join(kv(k, s) for k, s in zip(ks, t)), dict(op="bs4", kinds=ks, shapes=tuple(tuple(s) for s in t), exh=False))
+
+
+def gen_mixed(ctx, quick, b):
+    """constant / clipped operand x run-time operand: deterministic in both tiers"""
+    bext = (1, 2, 3, 5) if quick else (1, 2, 3, 4, 5, 7)
+    bdom = [()] + [t for d in (1, 2, 3) for t in itertools.product(bext, repeat=d)]
+    ops = [(mn, a) for mn, a in MENU_CONST.items()]
+    ops += [(4, (x, y)) for x in (1, 2) for y in (1, 2, 3)]
+    ops += [(5, tuple(a)) for a in all_shapes(3, 3 if quick else 4, mindim=1)]
+    for mn, a in ops:
+        for sb in bdom:
+            ks = [K_LIST, K_SVEC, K_NONE if len(sb) == 0 else K_ARRAY]
+            if len(sb) <= 2:
+                ks.append(K_SVEC2)
+            for kb in ks:
+                b.add("bsm %d %s %s" % (mn, fmt_vec(a), kv(kb, sb)), dict(op="bsm", menu=mn, kinds=(MENU_KIND[mn], KN[kb]), shapes=(a, sb)))
 
 
 def sbt_kind_menu(src, dst):
@@ -520,6 +539,35 @@ class Checker:
         if n == 3 and sum(1 for s in ctx.samples if isinstance(s, dict) and s.get("op") == "broadcast_shape/3") < 1 and exp is not None and len(exp) >= 2:
             ctx.sample(dict(op="broadcast_shape/3", kinds=cfg, shapes=[list(s) for s in shapes], variadic=list(recs["V"][2]) if recs["V"][1] else None))
         return vals["V"]
+
+    def check_bsm(self, m, t, line, fl):
+        ctx = self.ctx
+        a, b = m["shapes"]
+        ak, bk = m["kinds"]
+        det = dict(case=dict(m, shapes=[list(a), list(b)]), line=line)
+        exp = self.oracle((a, b))
+        cls = bs_class((a, b), exp)
+        t.expect("A")
+        echo = tuple(t.vec())
+        if echo != tuple(a):
+            raise ValueError("operand echo %s != %s" % (echo, a))
+        t.expect("P")
+        p = parse_Y(t)
+        t.expect("Q")
+        q = parse_Y(t)
+        self.check_bs_result("bsm:%s,%s:%s" % (ak, bk, cls), "broadcast_shape", p, (a, b), exp, det)
+        self.check_bs_result("bsm:%s,%s:%s" % (bk, ak, cls), "broadcast_shape", q, (b, a), exp, det)
+        if (p[1], p[2]) != (q[1], q[2]):
+            ctx.violation("law:commutative:bsm:%s" % ",".join(sorted((ak, bk))), "bs(%s,%s)=%s but bs(%s,%s)=%s" % (list(a), list(b), p[2], list(b), list(a), q[2]), det)
+        self.law("commutative(in-record)")
+        if len(b) == 0:
+            if not p[1] or p[2] != a:
+                ctx.violation("law:scalar_neutral:bsm:%s,%s" % (ak, bk), "bs(%s,%s) = %s, a scalar shape must be neutral" % (list(a), list(b), p[2] if p[1] else "Nothing"), det)
+            self.law("scalar_neutral")
+        if exp is None or len(exp) > 1:
+            ctx.seen(("bsm", m["menu"], bk, a, b))
+        if sum(1 for s_ in ctx.samples if isinstance(s_, dict) and s_.get("op") == "broadcast_shape(mixed)") < 1 and exp is not None and len(exp) >= 2 and m["menu"] == 5 and exp != a:
+            ctx.sample(dict(op="broadcast_shape(mixed)", kinds="%s,%s" % (ak, bk), a=list(a), b=list(b), has_value=p[1], result=list(p[2]) if p[1] else None))
 
     def table_laws(self, dom, triples, quads):
         """metamorphic laws evaluated purely on recorded list x list results (table closed over dom)"""
@@ -821,6 +869,8 @@ def dom_set(dom, _cache={}):
 def kinds_str(m):
     if m["op"] == "bto":
         return "%s->%s" % (AN[m["sk"]], KN[m["dk"]])
+    if m["op"] == "bsm":
+        return ",".join(m["kinds"])
     names = AN if m["op"].startswith("barr") else KN
     return ",".join(names[k] for k in m["kinds"])
 
@@ -867,6 +917,11 @@ def run(ctx):
     missing = ck.table_laws(dom, triples, quads)
     if missing and not ck.crashes:
         ctx.inconc("%d list x list pairs missing from the recorded table" % missing)
+
+    # ---- index level: constant / clipped x run-time
+    bx = Batch("m")
+    gen_mixed(ctx, quick, bx)
+    ck.run_binary(bins[("c06_index_ct", "asan")], bx, "asan", ck.check_bsm)
 
     # ---- index level: shape_broadcast_to / index::broadcast_to
     bs = Batch("s")
